@@ -3,7 +3,7 @@
 EXTENDS Mgmt
 CONSTANTS MaxDepth
 Cmds == [pfx : {"localhost", "localhop", "other"}, local : BOOLEAN, inface : {700},
-         mod : {"rib", "fib", "strategy-choice", "cs", "faces"}, verb : {"register", "unregister", "add-nexthop", "remove-nexthop", "set", "unset", "config", "update", "bogus"},
+         mod : {"rib", "fib", "strategy-choice", "cs", "faces"}, verb : {"register", "unregister", "add-nexthop", "remove-nexthop", "set", "unset", "config", "update", "destroy", "bogus"},
          hasParams : BOOLEAN, hasName : BOOLEAN, name : {<<"a">>}, faceId : {-1, 800, 9999}, cost : {-1, 5}, origin : {-1}, flags : {-1},
          strat : {"ok", "bare"}, stratName : {"multicast"}, capacity : {-1, 5, -2}, mtu : {-1, 0, 100, 1500}]
 Init == routes = {} /\ nh = Empty /\ st = (<<>> :> "best-route") /\ cap = 1024 /\ faces = (700 :> 8800 @@ 800 :> 1500) /\ lh \in BOOLEAN /\ ev = [c |-> [pfx |-> "none", local |-> FALSE, mod |-> "", verb |-> ""], accepted |-> FALSE]
